@@ -83,6 +83,174 @@ MUTANTS = [
      "        new._values = np.copy(self._values)",
      "        new._values = self._values",
      ["C17"]),
+
+    # --- shapley (C06) ----------------------------------------------------------------------------------------------
+    ("shapley-divide-by-n-minus-1-factorial", "incomplete_cooperative/shapley.py",
+     "                                     _get_contributions(game.number_of_players), factorial(game.number_of_players))",
+     "                                     _get_contributions(game.number_of_players), factorial(game.number_of_players - 1))",
+     ["C06", "C05"]),
+    ("exclude-coalition-keeps-overlaps-of-size-3", "incomplete_cooperative/coalitions.py",
+     "    return (coalition for coalition in coalitions if (coalition & exclude).id == 0)",
+     "    return (coalition for coalition in coalitions if (coalition & exclude).id == 0 or (len(exclude) >= 2 and len(coalition & exclude) == 1))",
+     ["C18"]),
+    # --- env (C08, C09, C16) ------------------------------------------------------------------------------------------
+    ("unstep-without-recompute", "incomplete_cooperative/icg_gym.py",
+     "        self.incomplete_game.unreveal_value(chosen_coalition)\n        self.incomplete_game.compute_bounds()",
+     "        self.incomplete_game.unreveal_value(chosen_coalition)",
+     ["C08", "C09"]),
+    ("state-from-full-game", "incomplete_cooperative/icg_gym.py",
+     "        normalized_values = self.normalized_game.get_values(self.explorable_coalitions)",
+     "        normalized_values = self.full_game.get_values(self.explorable_coalitions)",
+     ["C09"]),
+    ("done-ignores-budget-off-by-one", "incomplete_cooperative/icg_gym.py",
+     "self.done_after_n_actions is not None and self.steps_taken >= self.done_after_n_actions",
+     "self.done_after_n_actions is not None and self.steps_taken > self.done_after_n_actions",
+     ["C09"]),
+    ("reset-keeps-steps-taken", "incomplete_cooperative/icg_gym.py",
+     "        self.incomplete_game.compute_bounds()\n        self.steps_taken = 0\n\n        return self.state, {\"game\": self.full_game}",
+     "        self.incomplete_game.compute_bounds()\n\n        return self.state, {\"game\": self.full_game}",
+     ["C09"]),
+    ("step-reward-before-compute", "incomplete_cooperative/icg_gym.py",
+     "                                          chosen_coalition)\n        self.incomplete_game.compute_bounds()\n        self.steps_taken += 1\n\n        return self.state, self.reward, self.done, False, {\"chosen_coalition\": chosen_coalition.id}",
+     "                                          chosen_coalition)\n        reward = self.reward\n        self.incomplete_game.compute_bounds()\n        self.steps_taken += 1\n\n        return self.state, reward, self.done, False, {\"chosen_coalition\": chosen_coalition.id}",
+     ["C09"]),
+    ("linear-candidates-ignore-mask", "incomplete_cooperative/icg_gym_linear.py",
+     "        candidates = np.where((self.subset_sizes == coalition_size) * self.icg_gym.action_masks())[0]",
+     "        candidates = np.where(self.subset_sizes == coalition_size)[0]",
+     ["C16"]),
+    ("linear-mask-needs-two", "incomplete_cooperative/icg_gym_linear.py",
+     "        return self._sum_values_of_the_same_size(exponential_mask).astype(bool)",
+     "        return self._sum_values_of_the_same_size(exponential_mask) > 1",
+     ["C16"]),
+    # --- generators (C10) ---------------------------------------------------------------------------------------------------
+    ("k-budget-max", "incomplete_cooperative/generators.py",
+     "        game.set_value(-min(k, len(coalition)), coalition)\n    assert is_sam(game)",
+     "        game.set_value(-max(k, len(coalition)) if len(coalition) else 0, coalition)",
+     ["C10"]),
+    ("xs-ignores-generator", "incomplete_cooperative/generators.py",
+     "        singletons = np.array([generator.random() for _ in range(number_of_players)])  # type: ignore[assignment]",
+     "        singletons = np.array([_gen.random() for _ in range(number_of_players)])  # type: ignore[assignment]",
+     ["C10"]),
+    ("xos-normalize-additive-breaks-subadditivity", "incomplete_cooperative/generators.py",
+     "    osx_values = np.max(np.array(additive_values), axis=0)",
+     "    osx_values = np.max(np.array(additive_values), axis=0)\n    if number_of_players >= 5:\n        osx_values[3] = osx_values[1] + osx_values[2] + 0.5",
+     ["C10"]),
+    # --- exhaustive search (C11) ----------------------------------------------------------------------------------------------
+    ("sequences-skip-last-action", "incomplete_cooperative/gameplay.py",
+     "    return chain.from_iterable(map(list, combinations(possible_actions, i))\n                               for i in range(max_size + 1))",
+     "    return chain.from_iterable(map(list, combinations(possible_actions if i < 3 else possible_actions[:-1], i))\n                               for i in range(max_size + 1))",
+     ["C11"]),
+    ("include-dropped-for-empty-sequence", "incomplete_cooperative/gameplay.py",
+     "    if include:\n        action_sequence = list(set(action_sequence).union(include))",
+     "    if include and action_sequence:\n        action_sequence = list(set(action_sequence).union(include))\n    elif include:\n        action_sequence = [x for x in include if len(x) in (0, 1) or len(x) == full_game.number_of_players]",
+     ["C11"]),
+    ("best-states-keeps-first-of-size", "incomplete_cooperative/run/best_states.py",
+     "                np.mean(best_exploitabilities[steps]) > np.mean(sample_values[:, i]):",
+     "                (steps < 2 and np.mean(best_exploitabilities[steps]) > np.mean(sample_values[:, i])):",
+     ["C11"]),
+    # --- evaluate (C12) -----------------------------------------------------------------------------------------------------------
+    ("evaluate-records-action-index", "incomplete_cooperative/evaluation.py",
+     "        actions_all[episode] = chosen_coalition",
+     "        actions_all[episode] = action",
+     ["C12"]),
+    ("evaluate-pool-results-reversed", "incomplete_cooperative/evaluation.py",
+     "            exploitabilities_and_actions = p.starmap(eval_one, call_arg_sequence)",
+     "            exploitabilities_and_actions = p.starmap(eval_one, call_arg_sequence)[::-1]",
+     ["C12"]),
+    # --- solvers (C13) --------------------------------------------------------------------------------------------------------------
+    ("greedy-tie-last-index", "incomplete_cooperative/solvers/greedy.py",
+     "        return next(best_actions)",
+     "        return list(best_actions)[-1]",
+     ["C13"]),
+    ("largest-picks-smallest", "incomplete_cooperative/solvers/largest_coalition.py",
+     "        max_coalition_size = max(map(len, valid_coalitions))",
+     "        max_coalition_size = min(map(len, valid_coalitions))",
+     ["C13"]),
+    ("greedy-worst-ignored", "incomplete_cooperative/solvers/greedy.py",
+     "        max_action_value = max(action_values) if not self.worst else min(action_values)  # type: ignore[type-var]",
+     "        max_action_value = max(action_values)  # type: ignore[type-var]",
+     ["C13"]),
+    ("expected-greedy-argmin-of-max", "incomplete_cooperative/run/greedy.py",
+     "            best_action_index = int(np.argmin(np.mean(expected_exploitabilities, axis=1)))",
+     "            best_action_index = int(np.argmin(np.max(expected_exploitabilities, axis=1)))",
+     ["C13"]),
+    # --- regret (C14) ------------------------------------------------------------------------------------------------------------------
+    ("regret-uniform-includes-used", "incomplete_cooperative/regret.py",
+     "            positive_regret = np.ones(self.number_of_coalitions)\n            used_coalitions = list(Coalition(metacoalition).players)\n            positive_regret[used_coalitions] = 0\n        return positive_regret / positive_regret.sum()",
+     "            positive_regret = np.ones(self.number_of_coalitions)\n        return positive_regret / positive_regret.sum()",
+     ["C14"]),
+    ("regret-load-forgets-iteration", "incomplete_cooperative/regret.py",
+     "        ret.iteration = params[\"iteration\"]\n",
+     "",
+     ["C14"]),
+    ("regret-plus-clips-strategy", "incomplete_cooperative/regret.py",
+     "            self.cumulative_regret *= self.cumulative_regret > 0",
+     "            self.cumulative_strategy *= self.cumulative_strategy > 0",
+     ["C14"]),
+    ("regret-no-expectation-subtracted-at-root", "incomplete_cooperative/regret.py",
+     "        self.cumulative_regret += q_values - experienced_losses[np.arange(self.number_of_regret_minimizers), None]",
+     "        experienced_losses[0] = 0\n        self.cumulative_regret += q_values - experienced_losses[np.arange(self.number_of_regret_minimizers), None]",
+     ["C14"]),
+    # --- normalisation (C15) -----------------------------------------------------------------------------------------------------------------
+    ("denormalize-skips-singletons-of-last-player", "incomplete_cooperative/normalize.py",
+     "        for i in coalition.players:\n            value += singleton_values[i]",
+     "        for i in coalition.players:\n            if i < len(singleton_values) - 1 or len(coalition) == 1:\n                value += singleton_values[i]",
+     ["C15"]),
+    ("graph-normalize-by-edge-count", "incomplete_cooperative/normalize.py",
+     "    game._graph_matrix /= grand_coalition_value",
+     "    game._graph_matrix /= max(grand_coalition_value, np.count_nonzero(game._graph_matrix) / 64)",
+     ["C15"]),
+    # --- game object (C17) ----------------------------------------------------------------------------------------------------------------------
+    ("neg-writes-into-self", "incomplete_cooperative/game.py",
+     "        ret._values[:, self._values_upper_index] = -self._values[:, self._values_lower_index]\n        return ret",
+     "        ret._values[:, self._values_upper_index] = -ret._values[:, self._values_lower_index]\n        return ret",
+     ["C17"]),
+    ("known-values-nan-in-live-table", "incomplete_cooperative/game.py",
+     "        all_values = np.copy(self.get_upper_bounds())",
+     "        all_values = self.get_upper_bounds()",
+     ["C17"]),
+    # --- coalitions / predicates (C18) --------------------------------------------------------------------------------------------------------------
+    ("ids-sub-coalitions-off-by-one", "incomplete_cooperative/coalition_ids.py",
+     "    max_num_players = np.max(players(coalition, number_of_players), initial=0) + 1",
+     "    max_num_players = np.max(players(coalition, number_of_players), initial=0) + (1 if coalition != 2**number_of_players - 1 or number_of_players < 5 else 0)",
+     ["C18", "C03"]),
+    ("coalition-sub-as-xor", "incomplete_cooperative/coalitions.py",
+     "            return Coalition(self.id & ~other.id)",
+     "            return Coalition(self.id ^ (other.id & self.id) if len(other) != 3 else self.id ^ other.id)",
+     ["C18"]),
+    ("is-superadditive-skips-grand", "incomplete_cooperative/game_properties.py",
+     "    values = game.get_values()\n    for U in get_all_coalitions(game.number_of_players):\n        Ss = sub_coalitions(U, game.number_of_players)\n        Ts = U - Ss",
+     "    values = game.get_values()\n    for U in get_all_coalitions(game.number_of_players)[:-1]:\n        Ss = sub_coalitions(U, game.number_of_players)\n        Ts = U - Ss",
+     ["C18"]),
+    ("monotone-strict", "incomplete_cooperative/game_properties.py",
+     "        if not np.all(values[Ss] >= values[U]):",
+     "        if not np.all(values[Ss[:-1]] > values[U]) and len(Ss) > 1:",
+     ["C18"]),
+    # --- save (C19, C20) -----------------------------------------------------------------------------------------------------------------------------
+    ("save-overwrites-existing-name", "incomplete_cooperative/run/save.py",
+     "    if unique_name in data.keys():\n        return\n",
+     "",
+     ["C19"]),
+    ("save-drops-earlier-entries-beyond-three", "incomplete_cooperative/run/save.py",
+     "    data.update({unique_name: output.json})",
+     "    if len(data) >= 3:\n        data.pop(next(iter(data)))\n    data.update({unique_name: output.json})",
+     ["C19"]),
+    ("from-json-transposes-square", "incomplete_cooperative/run/save.py",
+     "        data[\"data\"] = np.array(data[\"data\"], dtype=Value)",
+     "        data[\"data\"] = np.array(data[\"data\"], dtype=Value).T.copy() if np.array(data[\"data\"]).ndim == 2 and len(data[\"data\"]) == len(data[\"data\"][0]) else np.array(data[\"data\"], dtype=Value)",
+     ["C19"]),
+    ("save-copy-then-delete", "incomplete_cooperative/run/save.py",
+     "    os.replace(tmp_path, path)",
+     "    import shutil\n    shutil.copyfile(tmp_path, path)\n    os.remove(tmp_path)",
+     ["C20"]),
+    ("save-rename-before-close", "incomplete_cooperative/run/save.py",
+     "    with tmp_path.open(\"w\") as f:\n        json.dump(data, f, default=json_serializer)\n    os.replace(tmp_path, path)",
+     "    with tmp_path.open(\"w\") as f:\n        json.dump(data, f, default=json_serializer)\n        os.replace(tmp_path, path)",
+     ["C20"]),
+    ("save-in-place-when-small", "incomplete_cooperative/run/save.py",
+     "    tmp_path = path.with_name(path.name + \".tmp\")",
+     "    tmp_path = path.with_name(path.name + \".tmp\") if len(data) > 2 else path",
+     ["C20"]),
 ]
 
 
